@@ -103,7 +103,8 @@ PCFired(S, e) ==
 \* one reactor turn
 PCMove(S, e) ==
   LET S1 == [S EXCEPT !.calls = Append(@, e.origin)] IN     \* the calls of the consumer that have not returned yet
-  IF S.reg # "yes" \/ S.stopped \/ S.fired # "" THEN PCHard(S, "harness_move_outside_registration")
+  IF S.reg # "yes" \/ S.stopped THEN PCHard(S, "harness_move_outside_registration")
+  ELSE IF S.fired # "" THEN PCOk(S1)      \* the read is over but the producer never unregistered: not the consumer's fault
   ELSE IF e.ev = "Pause" THEN
          (IF ~S.streaming THEN PCHard(S, "harness_pause_of_pull_producer")
           ELSE PCOk([S1 EXCEPT !.paused = TRUE,
